@@ -106,3 +106,68 @@ package record
 //@   ensures old(m.Expires) == 0 ==> r0 == -1
 //@   ensures old(m.Expires) != 0 ==> r0 >= 0
 //@   ensures m.Expires == old(m.Expires)
+
+// ---- C02: expiry setting. Meta.Deleted is overloaded: > 0 deletion time, < 0 negated time to
+// live of a relative expiry (re-applied by every Update), 0 neither.
+// an absolute expiry replaces a relative one: it is not affected by later updates
+//@ func (*Meta).SetAbsoluteExpiry
+//@   requires m != nil
+//@   inline
+//@   modifies m.Expires, m.Deleted
+//@   ensures m.Expires == seconds && m.Deleted == 0
+
+//@ func (*Meta).SetRelativateExpiry
+//@   requires m != nil
+//@   inline
+//@   modifies m.Deleted
+//@   ensures seconds >= 0 ==> m.Deleted == -seconds
+//@   ensures seconds < 0 ==> m.Deleted == old(m.Deleted)
+
+//@ func (*Meta).GetAbsoluteExpiry
+//@   requires m != nil
+//@   inline
+//@   pure
+//@   ensures r0 == m.Expires
+
+// an update stamps the modification time (and the creation time of a new record), re-applies a
+// relative expiry from that time, and leaves an absolute expiry, the deletion mark and the flags alone
+//@ func (*Meta).Update
+//@   requires m != nil
+//@   inline
+//@   modifies m.Modified, m.Created, m.Expires
+//@   ensures old(m.Created) != 0 ==> m.Created == old(m.Created)
+//@   ensures old(m.Created) == 0 ==> m.Created == m.Modified
+//@   ensures m.Deleted >= 0 ==> m.Expires == old(m.Expires)
+//@   ensures m.Deleted < 0 ==> m.Expires == m.Modified - m.Deleted
+
+// a reset clears the times and marks but keeps the secret / crown jewel flags
+//@ func (*Meta).Reset
+//@   requires m != nil
+//@   inline
+//@   modifies m.Created, m.Modified, m.Expires, m.Deleted
+//@   ensures m.Created == 0 && m.Modified == 0 && m.Expires == 0 && m.Deleted == 0
+
+//@ func (*Meta).Delete
+//@   requires m != nil
+//@   inline
+//@   modifies m.Deleted
+
+//@ func (*Meta).MakeCrownJewel
+//@   requires m != nil
+//@   inline
+//@   modifies m.cronjewel
+//@   ensures m.cronjewel
+
+//@ func (*Meta).MakeSecret
+//@   requires m != nil
+//@   inline
+//@   modifies m.secret
+//@   ensures m.secret
+
+// a record is visible iff it is not deleted and its expiry time, if it has one, has not passed
+//@ func (*Meta).CheckValidity
+//@   inline
+//@   pure
+//@   ensures m == nil ==> !valid
+//@   ensures m != nil && m.Deleted > 0 ==> !valid
+//@   ensures m != nil && m.Deleted <= 0 && m.Expires <= 0 ==> valid
